@@ -210,10 +210,12 @@ RECURSIVE FDotFrom(_, _, _)
 FDotFrom(ws, w, i) == IF i > Len(ws) THEN FZero ELSE FAdd(FMul(ws[i], FFromQ(w[i])), FDotFrom(ws, w, i + 1))
 RECURSIVE FSumFrom(_, _)
 FSumFrom(ws, i) == IF i > Len(ws) THEN FZero ELSE FAdd(ws[i], FSumFrom(ws, i + 1))
-Alma_Def(N, sigma, offset, xs) ==
+(* with the kernel weights ws already evaluated (they depend on N, sigma, offset only) *)
+Alma_DefW(N, ws, xs) ==
     IF Len(xs) < N \/ Len(xs) = 0 THEN RAny
-    ELSE LET w == LastK(xs, N)
-             ws == AlmaWeights(N, sigma, offset)
-         IN  IF AllEqual(w) THEN RQ(w[1])
-             ELSE RF(FDiv(FDotFrom(ws, w, 1), FSumFrom(ws, 1)))
+    ELSE LET w == LastK(xs, N) IN
+         IF AllEqual(w) THEN RQ(w[1])
+         ELSE RF(FDiv(FDotFrom(ws, w, 1), FSumFrom(ws, 1)))
+Alma_Def(N, sigma, offset, xs) ==
+    IF Len(xs) < N \/ Len(xs) = 0 THEN RAny ELSE Alma_DefW(N, AlmaWeights(N, sigma, offset), xs)
 =============================================================================
